@@ -21,16 +21,25 @@ TRUSTED = [
     "str.lower() is an uninterpreted function in the theorems and ASCII lowering in the driver; generated names use ASCII and uncased CJK only",
     "C03 model scope: ServiceRegistry._add/_remove/async_update, ServiceInfo record builders + memo slots, QueryHandler._get_answer_strategies/"
     "_answer_question/_add_*_answers, DNSRRSet.suppresses, answers._add_answers_additionals; the routing of an answer to the unicast / multicast-now / "
-    "aggregate / last-second bucket is not modelled (C11/C12) -- only the union of the buckets is observed",
-    "ServiceInfo construction/validation (service_type_name), ipaddress parsing and interface_index scoping are driven, not modelled; "
-    "registered infos always have a server (set_server_if_missing) as _add asserts",
+    "aggregate / last-second bucket is not modelled (C11/C12) -- only the union of the buckets is observed; for a query mixing QU and QM questions the "
+    "union is compared at record-identity level when the exact comparison fails (two buckets may keep different key objects of one identity)",
+    "ServiceInfo construction/validation (service_type_name) and ipaddress parsing are driven, not modelled; interface_index (None or 3) is driven and the "
+    "model hard-wires scope_id = None in address records (what _dns_addresses builds today); registered infos always have a server "
+    "(set_server_if_missing) as _add asserts; one datagram per message of a query (no TC continuation through the listener)",
     "wire order of answers (sorted by name) and of additionals (set iteration order) is not compared; sets are compared as sets",
+    "the pending-reply layer of the Lean model (Zc.RHost: replies computed but not yet transmitted, C03_transmitted_current_*) is an abstraction of the "
+    "two outgoing queues that the correspondence harness does not drive; the implementation's datagrams around an update/unregister are judged by the "
+    "oracle directly (simulated-host change family)",
 ]
 ASSUMPTIONS = [
     "CPython dict/set behave as maps for keys with congruent __eq__/__hash__ (C20)",
     "reading decisions (notes/agents/C03.md): the type-enumeration meta-query is a PTR question (RFC 6763 s9), ANY on the enumeration name is not an "
     "enumeration question; a known-answer list that lists one record twice with contradictory TTLs leaves the answer optional; "
-    "attribute writes on a registered ServiceInfo take effect at the next async_update (stale memo until then is not a violation)",
+    "attribute writes on a registered ServiceInfo take effect at the next async_update (stale memo until then is not a violation); "
+    "NSEC (reading 9): owner/next name = the instance name and the bitmap lists the missing address types, as the library builds it; the NSEC of every "
+    "service of the asked host that lacks the asked type is allowed, it is owed only when no registered service of that host has the type",
+    "on the wire 'replies reflect only the new state' is read as: every record (TTL-0 goodbyes aside) of a response datagram transmitted after the "
+    "async_update_service / async_unregister_service call is a record of a service registered after that call",
 ]
 
 ENUM = "_services._dns-sd._udp.local."
@@ -41,7 +50,7 @@ LABELS = ["x", "y", "z", "X", "Y", "日本"]
 HOSTS = ["h1.local.", "H1.LOCAL.", "h2.local.", None, None]
 V4 = [bytes([10, 0, 0, 1]), bytes([10, 0, 0, 2]), bytes([10, 0, 1, 1])]
 V6 = [bytes([0xFE, 0x80] + [0] * 13 + [1]), bytes([0xFE, 0x80] + [0] * 13 + [2]), bytes([0x20, 0x01, 0x0D, 0xB8] + [0] * 11 + [1])]
-ADDR_SHAPES = ["v4", "v6", "dual", "v4v4", "dup4", "none", "v4v6v6", "dual"]
+ADDR_SHAPES = ["v4", "v6", "dual", "v4v4", "dup4", "none", "v4v6v6", "dual", "dual", "v4v6v6"]
 HOST_TTLS = [120, 120, 10, 121, 1, 0, 4500]
 OTHER_TTLS = [4500, 4500, 60, 61, 2, 1, 0]
 TEXTS = [b"", b"\x03a=1", b"\x03A=1", b"\x06path=/"]
@@ -69,20 +78,30 @@ def gen_svc(rng, name=None, type_=None):
         rng.shuffle(addrs)
     return {"type": t, "name": name, "server": rng.choice(HOSTS), "port": rng.choice([80, 81, 1, 65535]), "weight": rng.choice([0, 0, 1, 7]),
             "priority": rng.choice([0, 0, 1, 7]), "text": rng.choice(TEXTS).hex(), "httl": rng.choice(HOST_TTLS), "ottl": rng.choice(OTHER_TTLS),
-            "addrs": [a.hex() for a in addrs]}
+            "addrs": [a.hex() for a in addrs], "ifindex": rng.choice([None, None, None, 3])}
+
+
+ARGS = {}   # id(info) -> (info, fields as the *arguments given* say): constructor arguments, then every attribute write
 
 
 def make_info(spec):
     from zeroconf import ServiceInfo
 
     info = ServiceInfo(spec["type"], spec["name"], spec["port"], spec["weight"], spec["priority"], bytes.fromhex(spec["text"]), spec["server"],
-                       host_ttl=spec["httl"], other_ttl=spec["ottl"], addresses=[bytes.fromhex(a) for a in spec["addrs"]])
+                       host_ttl=spec["httl"], other_ttl=spec["ottl"], addresses=[bytes.fromhex(a) for a in spec["addrs"]],
+                       interface_index=spec.get("ifindex"))
     info.set_server_if_missing()  # what async_register_service does before registry.async_add
+    ARGS[id(info)] = (info, spec_fields(spec))
     return info
 
 
 def fields(info):
-    """the fields of a real ServiceInfo, as plain data (what the model and the oracles are given)"""
+    """What the model and the oracles are told about a ServiceInfo: the values the API was *given* (constructor arguments, then
+    every attribute write), never what the object's own accessors report -- a setter that forgets to replace something must show."""
+    return dict(ARGS[id(info)][1])
+
+
+def fields_actual(info):
     return {"type": info.type, "name": info._name, "server": info.server, "port": info.port, "weight": info.weight, "priority": info.priority,
             "text": info.text, "httl": info.host_ttl, "ottl": info.other_ttl,
             "v4": [a.packed for a in info._ipv4_addresses], "v6": [a.packed for a in info._ipv6_addresses]}
@@ -201,9 +220,13 @@ def oracle(svcs, qs, known, observed, ettl):
         return bool(m) and all(r[5] < 2 * t for t in m)
 
     cands = []
+    owed = []
     for qn, qt in qs:
         for f in svcs:
-            cands += candidates(f, qn, qt, ettl)
+            c = candidates(f, qn, qt, ettl)
+            cands += c
+            host_has = any(g["server"].lower() == f["server"].lower() and (g["v4"] if qt == T_A else g["v6"] if qt == T_AAAA else []) for g in svcs)
+            owed += [r for r in c if not (r[0] == "n" and host_has)]
     cset = set(cands)
     offered = {ident(a) for a, _ in observed}
     for a, adds in observed:
@@ -223,7 +246,7 @@ def oracle(svcs, qs, known, observed, ettl):
                     break
             if not ok:
                 bad.append(("C03:foreign-additional:%s" % a[0], "additionals are not the SRV/TXT/address/NSEC records of one service owning the answer", (a, adds)))
-    for r in cands:
+    for r in owed:
         if r[0] == "n":
             if nsec_known:
                 continue  # NSEC known answers are outside the completeness claim
@@ -240,6 +263,7 @@ def oracle(svcs, qs, known, observed, ettl):
 
 class World:
     def __init__(self):
+        ARGS.clear()
         from zeroconf import DNSCache
         from zeroconf._handlers.query_handler import QueryHandler
         from zeroconf._history import QuestionHistory
@@ -396,7 +420,8 @@ def exec_history(ops, want_lines=True):
                 impl = "%s # %s" % ("none" if qa is None else canon_dict(merged), w.memo())
                 known = [a for m in msgs if not m.is_probe() for a in m.answers()]
                 q = {"svcs": svcs, "qs": [x for m in msgs for x in m.questions], "known": known, "observed": list(keyobj.values()), "none": qa is None,
-                     "buckets": buckets, "conflict": conflict, "dirty": bool(w.dirty), "ettl": w.ettl,
+                     "buckets": buckets, "conflict": conflict, "dirty": bool(w.dirty), "ettl": w.ettl, "merged": merged,
+                     "mixed": len({bool(x.unique) for m in msgs for x in m.questions}) > 1,
                      "in_scope": all(x.class_ == 1 for m in msgs for x in m.questions)}
             else:
                 raise ValueError(k)
@@ -525,6 +550,7 @@ def exec_wire(ops, seed):
 
     sim = vsim.Sim(seed)
     steps = []
+    ARGS.clear()
 
     async def main(sim):
         host = sim.make_host("A", "10.0.0.1")
@@ -589,6 +615,75 @@ def exec_wire(ops, seed):
                 impl = "wire"
                 q = {"svcs": svcs, "qs": list(msgs[0].questions), "known": list(msgs[0].answers()) if not msgs[0].is_probe() else [], "pkts": pkts,
                      "ettl": const._DNS_OTHER_TTL, "in_scope": all(x.class_ == 1 for x in msgs[0].questions)}
+            elif k == "QC":
+                def grab(start, mark):
+                    pkts = []
+                    for j, (t, src, dst, port, data) in enumerate(sim.net.log[start:]):
+                        inc = DNSIncoming(data)
+                        if inc.is_query():
+                            continue
+                        recs = inc.answers()
+                        na = inc.num_answers
+                        pkts.append({"t": t, "dst": dst, "answers": recs[:na], "adds": recs[na + inc.num_authorities:], "after": start + j >= mark})
+                    return pkts
+
+                start = len(sim.net.log)
+                svcs_before = [fields(i) for i in book.values()]
+                qsteps = []
+                for qop, gap in ([(op["pre"], op.get("pre_gap", 300))] if op.get("pre") else []) + [(op["query"], op["delay"])]:
+                    msgs, packets = build_msgs(qop, want_packets=True)
+                    qsteps.append({"op": qop, "line": msg_line(msgs), "impl": "wire", "msgs": msgs})
+                    host.inject(packets[0], "10.9.9.9", 5353)
+                    await sim.sleep_ms(gap)
+                mark = len(sim.net.log)
+                # ---- the change block: no await between the attribute writes and the registry call
+                futs, csteps, changed, kinds = [], [], {}, []
+                for c in op["change"]:
+                    ck = c["op"]
+                    if ck == "M":
+                        info = objs.get(c["obj"])
+                        if info is not None and book.get(info.key) is info:
+                            changed.setdefault(info.key, fields(info))
+                            apply_mut(info, c["mut"])
+                        continue
+                    if ck in ("U", "Unew"):
+                        info = objs.get(c["obj"]) if ck == "U" else make_info(c["svc"])
+                        if info is None:
+                            continue
+                        if ck == "Unew":
+                            objs[c["obj"]] = info
+                        if info.key in book:
+                            changed.setdefault(info.key, fields(book[info.key]))
+                        cline = "U " + svc_line(fields(info))
+                        futs.append(await zc.async_update_service(info))
+                        book[info.key] = info
+                        kinds.append("update")
+                    elif ck == "X":
+                        infos = [objs[i] for i in c["objs"] if i in objs]
+                        if not infos:
+                            continue
+                        cline = "X %d %s" % (len(infos), " ".join(C.hs(i.key) for i in infos))
+                        for i in infos:
+                            if i.key in book:
+                                changed.setdefault(i.key, fields(book[i.key]))
+                            futs.append(await zc.async_unregister_service(i))
+                            book.pop(i.key, None)
+                        kinds.append("unregister")
+                    else:
+                        continue
+                    csteps.append({"op": c, "line": cline, "impl": "ok", "q": None})
+                await sim.sleep_ms(2600)
+                for f in futs:
+                    await f
+                pkts = grab(start, mark)
+                for n, qs_ in enumerate(qsteps):
+                    m0 = qs_.pop("msgs")[0]
+                    qs_["q"] = {"split": True, "svcs": svcs_before, "svcs_after": [fields(i) for i in book.values()], "changed": changed, "kinds": kinds,
+                                "qs": list(m0.questions), "known": [], "pkts": pkts if n == len(qsteps) - 1 else [], "delay": op["delay"],
+                                "ettl": const._DNS_OTHER_TTL, "in_scope": True}
+                steps.extend(qsteps)
+                steps.extend(csteps)
+                continue
             else:
                 continue
             steps.append({"op": op, "line": line, "impl": impl, "q": q})
@@ -599,21 +694,32 @@ def exec_wire(ops, seed):
 
 
 def apply_mut(info, mut):
+    """an attribute write through the public surface of ServiceInfo, mirrored on the argument-derived fields"""
     kind, val = mut
+    f = ARGS[id(info)][1]
     if kind == "port":
         info.port = val
+        f["port"] = val
     elif kind == "weight":
         info.weight = val
+        f["weight"] = val
     elif kind == "priority":
         info.priority = val
+        f["priority"] = val
     elif kind == "text":
         info.text = bytes.fromhex(val)
+        f["text"] = bytes.fromhex(val)
     elif kind == "httl":
         info.host_ttl = val
+        f["httl"] = val
     elif kind == "ottl":
         info.other_ttl = val
+        f["ottl"] = val
     elif kind == "addrs":
-        info.addresses = [bytes.fromhex(a) for a in val]
+        a = [bytes.fromhex(x) for x in val]
+        info.addresses = a
+        f["v4"] = [x for x in a if len(x) == 4]
+        f["v6"] = [x for x in a if len(x) == 16]
 
 
 def fixu(t):
@@ -656,6 +762,109 @@ def wire_oracle(q):
                 bad.append(("C03:foreign-additional:wire", "a datagram carries an additional that is not an SRV/TXT/address/NSEC record of a service owning one of its answers", t))
             seen.add(ident(t))
     return bad
+
+
+def all_own(svcs, ettl):
+    out = set()
+    for f in svcs:
+        ptr, srv, txt, addrs, nsec, missing, enum = own_records(f, ettl)
+        out |= set([ptr, srv, txt, enum] + addrs + nsec)
+    return out
+
+
+SIG_D20 = "C03:queued-answer-superseded-by-update"
+SIG_D20B = "C03:queued-enumeration-pointer-after-unregister"
+SIG_D20C = "C03:queued-shared-host-record-after-unregister"
+
+
+def change_oracle(q):
+    """`after a service is updated or unregistered replies reflect only the new state`, on the wire: every record of a response
+    datagram transmitted after the update/unregister block (TTL-0 goodbyes aside) is a record of a service registered *then*;
+    datagrams transmitted before it are judged against the state before."""
+    bad = []
+    before, after = all_own(q["svcs"], q["ettl"]), all_own(q["svcs_after"], q["ettl"])
+    old = all_own(list(q["changed"].values()), q["ettl"])
+    for p in q["pkts"]:
+        for r in list(p["answers"]) + list(p["adds"]):
+            t = fixu(rtuple(r))
+            if not p["after"]:
+                if t not in before:
+                    bad.append(("C03:unsound-answer:%s" % t[0], "a datagram sent before the change carries a record that is not a record of a registered service", t))
+                continue
+            if t in after or (t[5] == 0 and "unregister" in q["kinds"]):
+                continue
+            if t in old and "update" in q["kinds"]:
+                bad.append((SIG_D20, "a reply computed before async_update_service and still queued was multicast after the update with the "
+                            "service's superseded record (D20)", t))
+            elif t in old:
+                hosts_left = {f["server"].lower() for f in q["svcs_after"]}
+                shared = any(f["server"].lower() in hosts_left and t in set(own_records(f, q["ettl"])[3] + own_records(f, q["ettl"])[4])
+                             for f in q["changed"].values())
+                if t[0] == "p" and t[1].lower() == ENUM:
+                    bad.append((SIG_D20B, "a type-enumeration answer queued before async_unregister_service went out afterwards although no service of that "
+                                "type is registered any more (the enumeration pointer is not among the records the D5 repair purges)", t))
+                elif t[0] in ("a", "n") and shared:
+                    bad.append((SIG_D20C, "an address/NSEC record of the withdrawn service (its TTL, its instance name), queued before async_unregister_service, "
+                                "went out afterwards: with another service on the host these records are neither purged nor said goodbye to", t))
+                else:
+                    bad.append(("C03:queued-answer-after-unregister:%s" % t[0], "a reply queued before async_unregister_service went out afterwards with a record of the withdrawn service", t))
+            else:
+                bad.append(("C03:unsound-answer:after-change:%s" % t[0], "a datagram sent after the change carries a record of no registered service", t))
+    return bad
+
+
+def gen_change_history(rng):
+    """register 1-3 services, then rounds of: (optional earlier query <1 s before, so that the reply is flood-delayed by 1 s) query,
+    0-1100 ms, update (in place or with a new object) or unregister while the reply may still be queued"""
+    ops, live, nid = [], {}, 0
+    while len(live) < rng.choice([1, 1, 2, 3]):
+        spec = gen_svc(rng)
+        spec["httl"] = rng.choice([120, 10, 121, 4500])
+        spec["ottl"] = rng.choice([4500, 60, 61])
+        if any(x["name"].lower() == spec["name"].lower() for x in live.values()):
+            continue
+        if live and rng.random() < 0.4:
+            o = rng.choice(list(live.values()))
+            spec["server"] = o["server"] if o["server"] else o["name"]
+        ops.append({"op": "R", "svc": spec, "obj": nid})
+        live[nid] = spec
+        nid += 1
+    for _ in range(rng.choice([1, 2, 3])):
+        if not live:
+            break
+        i = rng.choice(list(live))
+        f = spec_fields(live[i])
+        qu = 0x8000 if rng.random() < 0.15 else 0
+        shape = rng.choice(["srv+txt", "ptr", "txt", "any", "ptr+a", "a+aaaa", "enum", "srv"])
+        qs = {"srv+txt": [[f["name"], T_TXT, 1], [f["name"], T_SRV, 1]], "ptr": [[f["type"], T_PTR, 1]], "txt": [[f["name"], T_TXT, 1]],
+              "any": [[f["name"], T_ANY, 1]], "ptr+a": [[f["type"], T_PTR, 1], [f["server"], T_A, 1]],
+              "a+aaaa": [[f["server"], T_A, 1], [f["server"], T_AAAA, 1]], "enum": [[ENUM, T_PTR, 1], [f["type"], T_PTR, 1]], "srv": [[f["name"], T_SRV, 1]]}[shape]
+        qs = [[n, t, c | qu] for n, t, c in qs]
+        query = {"op": "Q", "ucast": False, "msgs": [{"probe": False, "qs": qs, "answers": []}]}
+        op = {"op": "QC", "query": query, "delay": rng.choice([0, 1, 5, 15, 30, 60, 100, 119, 121, 200, 400, 600, 1100])}
+        if rng.random() < 0.3:
+            op["pre"] = {"op": "Q", "ucast": False, "msgs": [{"probe": False, "qs": list(reversed(qs)) + [["nosuch.local.", T_A, 1]], "answers": []}]}
+            op["pre_gap"] = rng.choice([150, 300, 600, 900])
+            op["delay"] = rng.choice([0, 30, 200, 600, 900, 1050, 1100])
+        r = rng.random()
+        if r < 0.45:
+            kind = rng.choice(["port", "text", "httl", "ottl", "addrs", "port"])
+            val = {"port": rng.choice([81, 8080]), "text": rng.choice(TEXTS[1:]).hex(), "httl": rng.choice([120, 10, 121]), "ottl": rng.choice([4500, 60, 61]),
+                   "addrs": gen_svc(rng)["addrs"]}[kind]
+            live[i]["addrs" if kind == "addrs" else kind] = val
+            op["change"] = [{"op": "M", "obj": i, "mut": [kind, val]}, {"op": "U", "obj": i}]
+        elif r < 0.75:
+            spec = gen_svc(rng, name=live[i]["name"], type_=live[i]["type"])
+            spec["server"] = live[i]["server"]
+            op["change"] = [{"op": "Unew", "svc": spec, "obj": nid}]
+            del live[i]
+            live[nid] = spec
+            nid += 1
+        else:
+            op["change"] = [{"op": "X", "objs": [i]}]
+            del live[i]
+        ops.append(op)
+    return ops
 
 
 def gen_wire_history(rng):
@@ -719,6 +928,24 @@ def assess_wire(res, ops, steps, errors, model_line, seed):
         res.evaluations += 1
         res.count("wire-queries")
         res.count("wire-datagrams", len(q["pkts"]))
+        if q.get("split"):
+            na = sum(1 for p in q["pkts"] if p["after"])
+            res.count("wire-change-queries")
+            res.count("wire-datagrams-after-change", na)
+            late = [p for p in q["pkts"] if p["after"] and not (len(p["answers"]) >= 3 and not p["adds"])]
+            res.nontriv(("wire-change", tuple(q["kinds"]), tuple(sorted(x.type for x in q["qs"])), min(q["delay"], 200) // 50, bool(late)))
+            seen_sig = set()
+            for sig, what, detail in change_oracle(q):
+                if sig in seen_sig:
+                    continue
+                seen_sig.add(sig)
+                if sig in (SIG_D20, SIG_D20B, SIG_D20C):
+                    key = "finding-seen:" + sig
+                    res.count(key)
+                    if res.dist[key] > 3:
+                        continue
+                res.violate(sig, what + " (on the wire)", dict(case, step=i, detail=repr(detail)))
+            continue
         union = sorted({nou(rline(a)) for p in q["pkts"] for a in p["answers"]})
         if union:
             res.nontriv(("wire", tuple(sorted((x.type, x.name.lower() == ENUM) for x in q["qs"])), min(len(union), 4), len(q["pkts"])))
@@ -815,6 +1042,7 @@ def gen_query(rng, svcs, past, force_enum=False):
     for f in list(past)[:3]:
         names += [f["name"], f["server"]]
     qu = rng.random() < 0.3
+    mixed = rng.random() < 0.12
     nonin = rng.random() < 0.04
     msgs = []
     for mi in range(2 if rng.random() < 0.12 else 1):
@@ -832,7 +1060,7 @@ def gen_query(rng, svcs, past, force_enum=False):
                     n = swapc(n, rng)
             else:
                 t = rng.choice(QTYPES)
-            cl = (rng.choice([255, 3]) if nonin and rng.random() < 0.5 else 1) | (0x8000 if qu else 0)
+            cl = (rng.choice([255, 3]) if nonin and rng.random() < 0.5 else 1) | (0x8000 if (rng.random() < 0.5 if mixed else qu) else 0)
             qs.append([n, t, cl])
         if force_enum and mi == 0:
             qs[0] = [rng.choice([ENUM, ENUM.upper()]), T_PTR, 1 | (0x8000 if qu else 0)]
@@ -891,7 +1119,7 @@ def gen_history(rng, nops):
         elif r < 0.60:
             i = rng.choice(list(live))
             s = live[i]
-            kind = rng.choice(["port", "port", "text", "httl", "ottl", "addrs", "weight", "priority"])
+            kind = rng.choice(["port", "port", "text", "httl", "ottl", "addrs", "addrs", "addrs", "weight", "priority"])
             if kind == "port":
                 val = rng.choice([80, 81, 8080, 1])
                 s["port"] = val
@@ -992,6 +1220,18 @@ def assess(res, ops, steps, model_line, omodel, olines, label):
                     if s["q"] is not None or s["op"]["op"] == "Q":
                         ma, _, mm = m.partition(" # ")
                         m = "%s # %s" % (canon_model_answers(ma), mm)
+                    if impl != m and s["q"] is not None and s["q"]["mixed"] and impl.partition(" # ")[2] == m.partition(" # ")[2]:
+                        # QU and QM questions in one query: two routing buckets may hold different key objects (TTL, spelling) of one
+                        # identity; compare identity -> additionals
+                        lid = lambda l: ident(rtuple(rec_from_line(l)))  # noqa: E731
+                        mm_ = {}
+                        if ma not in ("none", "empty"):
+                            for e in ma.split(" ; "):
+                                parts = e.split(" , ")
+                                mm_[lid(parts[0])] = frozenset(parts[1:])
+                        if {lid(k): v for k, v in s["q"]["merged"].items()} == mm_ and (s["q"]["none"]) == (ma == "none"):
+                            res.count("mixed-QU-QM-compared-at-identity-level")
+                            continue
                     if impl != m:
                         res.disagree("c03-history", {"ops": ops[: i + 1], "step": i}, impl, m)
                         break
@@ -1013,6 +1253,8 @@ def assess(res, ops, steps, model_line, omodel, olines, label):
         res.count("answers", nans)
         if q["none"]:
             res.count("no-strategy")
+        if q["mixed"]:
+            res.count("queries-mixing-QU-and-QM")
         if q["dirty"]:
             res.count("queries-in-dirty-window(C only)")
         if not q["in_scope"]:
@@ -1059,8 +1301,8 @@ def assess(res, ops, steps, model_line, omodel, olines, label):
             if o == "bad-op":
                 continue
             ma, _, mb = o.partition(" # ")
-            mids = lambda s: sorted(ident(rtuple(rec_from_line(x))) for x in s.split(" ; ")) if s != "empty" else []
-            if mids(ma) != sorted(ident(rtuple(a)) for a in answers) or mids(mb) != sorted(ident(rtuple(a)) for a in adds):
+            mids = lambda s: sorted((ident(rtuple(rec_from_line(x))) for x in s.split(" ; ")), key=repr) if s != "empty" else []
+            if mids(ma) != sorted((ident(rtuple(a)) for a in answers), key=repr) or mids(mb) != sorted((ident(rtuple(a)) for a in adds), key=repr):
                 res.disagree("c03p", {"ops": ops[: si + 1], "bucket": bname}, [rline(a) for a in adds], mb)
         if len(res.samples) < 3 and nans >= 2 and nk:
             res.sample({"questions": [(x.name, x.type) for x in q["qs"]], "known": [rline(k) for k in q["known"]][:3], "answers": [rline(a) for a, _ in q["observed"]][:4],
@@ -1079,7 +1321,9 @@ def run(ctx):
                 "5 types x 6 labels x 4 hosts x 8 address shapes x boundary TTLs; queries of 1-4 questions x 0-4 known answers at TTL floor(t/2), floor(t/2)+1, ...; "
                 "non-trivial = distinct (question kinds, #answers, #known, #services, answer kinds, dirty) signatures with at least one answer or known answer; "
                 "plus simulated-host histories through the public API observed on the wire")
-    histories = [("corpus/" + name, body["ops"]) for name, body in C.load_corpus("C03")]
+    corpus = C.load_corpus("C03")
+    histories = [("corpus/" + name, body["ops"]) for name, body in corpus if not body.get("wire")]
+    wire_corpus = [(body["ops"], body.get("sim_seed", 0)) for name, body in corpus if body.get("wire")]
     nq = 0
     batch = []
     done = False
@@ -1119,9 +1363,12 @@ def run(ctx):
     # ---- second observation point: datagrams of a simulated host (skipped once a violation is in hand)
     if not res.violations:
         runs = []
-        for w in range(wire_budget):
+        for ops, seed in wire_corpus:
+            steps, errors = exec_wire(ops, seed)
+            runs.append((ops, seed, steps, errors))
+        for w in range(2 * wire_budget):
             wr = C.rng_for(ctx["seed"], "c03-wire", w)
-            ops = gen_wire_history(wr)
+            ops = gen_wire_history(wr) if w % 2 == 0 else gen_change_history(wr)
             seed = ctx["seed"] * 100003 + w
             steps, errors = exec_wire(ops, seed)
             runs.append((ops, seed, steps, errors))
@@ -1139,7 +1386,15 @@ def run(ctx):
     seen = set()
     shrunk = []
     for v in res.violations:
-        if v["sig"] in seen or v["case"].get("wire"):
+        if v["sig"] in seen:
+            shrunk.append(v)
+            continue
+        if v["case"].get("wire"):
+            seen.add(v["sig"])
+            try:
+                v = dict(v, case=shrink_wire(v["case"], v["sig"]))
+            except Exception:  # noqa: BLE001
+                pass
             shrunk.append(v)
             continue
         seen.add(v["sig"])
@@ -1153,15 +1408,43 @@ def run(ctx):
     return res
 
 
+def wire_violations(case):
+    steps, errors = exec_wire(case["ops"], case.get("sim_seed", 0))
+    v = [("C03:wire-exception", e, -1) for e in errors]
+    for i, s in enumerate(steps):
+        if s["q"] is not None and s["q"]["in_scope"]:
+            v += [(sig, what, i) for sig, what, _ in (change_oracle(s["q"]) if s["q"].get("split") else wire_oracle(s["q"]))]
+    return v
+
+
+def shrink_wire(case, sig):
+    ops = list(case["ops"])
+    i = len(ops) - 1
+    while i >= 0:
+        cand = ops[:i] + ops[i + 1:]
+        try:
+            if any(s == sig for s, _, _ in wire_violations(dict(case, ops=cand))):
+                ops = cand
+        except Exception:  # noqa: BLE001
+            pass
+        i -= 1
+    # drop the optional earlier query
+    for j, o in enumerate(ops):
+        if o.get("pre"):
+            cand = ops[:j] + [{k: v for k, v in o.items() if k not in ("pre", "pre_gap")}] + ops[j + 1:]
+            try:
+                if any(s == sig for s, _, _ in wire_violations(dict(case, ops=cand))):
+                    ops = cand
+            except Exception:  # noqa: BLE001
+                pass
+    return {"wire": True, "sim_seed": case.get("sim_seed", 0), "ops": ops, "shrunk_from": len(case["ops"])}
+
+
 def replay(body):
     case = body.get("case", body)
     ops = case["ops"]
     if case.get("wire"):
-        steps, errors = exec_wire(ops, case.get("sim_seed", 0))
-        v = [("C03:wire-exception", e, -1) for e in errors]
-        for i, s in enumerate(steps):
-            if s["q"] is not None and s["q"]["in_scope"]:
-                v += [(sig, what, i) for sig, what, _ in wire_oracle(s["q"])]
+        v = wire_violations(case)
     else:
         v = violations_of(ops)
     return {"violates": bool(v), "violations": [{"sig": s, "what": w, "step": st} for s, w, st in v][:10], "ops": len(ops)}
